@@ -207,7 +207,8 @@ def run_obligation(ctx, obl, want_trace=False, trace_props=()):
             odd.append("%s=%s" % (pr.get("property", "?"), pr.get("status")))
     if any(isinstance(it, dict) and it.get("cProverStatus") == "error" for it in data):
         odd.append("cProverStatus=error")
-    if odd and not want_trace:
+    if odd and not want_trace and not r.failed and not obl.canary:
+        # no property failed, but some were left undecided (solver "unknown", paths cut off): not a pass
         r.status = "error"
         r.detail += "undecided cbmc properties (solver answered unknown / error): " + ", ".join(odd[:6])
         return r
